@@ -44,4 +44,18 @@ structure CertRevocationResult where
   deriving DecidableEq, Repr, Inhabited
 end revocationresult
 
+/- verifier/trustpolicy -/
+namespace trustpolicy
+abbrev ValidationType := String
+abbrev ValidationAction := String
+structure VerificationLevel where
+  Name : String
+  Enforcement : GoLite.Map ValidationType ValidationAction
+  deriving DecidableEq, Repr, Inhabited
+structure SignatureVerification where
+  VerificationLevel : String
+  Override : GoLite.Map ValidationType ValidationAction
+  deriving DecidableEq, Repr, Inhabited
+end trustpolicy
+
 end NotationModel.Src
